@@ -38,8 +38,20 @@ fn ival(f: &F) -> i128 {
     if f.signed { to_i128(&f.value) } else { to_u128(&f.value) as i128 }
 }
 
+fn fval(f: &F) -> f64 {
+    if f.w == 32 { f32::from_bits(to_u128(&f.value) as u32) as f64 } else { f64::from_bits(to_u128(&f.value) as u64) }
+}
+
 fn pack_text(f: &F, alt: usize) -> String {
     match f.kind.as_str() {
+        "flt" => {
+            // values are exactly representable, so the literal is exact
+            if alt % 2 == 0 {
+                format!("{:?} f{}{}!", fval(f), f.w, if f.order == "big" { "be" } else { "le" })
+            } else {
+                format!("{} {:?} f{}!", f.order, fval(f), f.w)
+            }
+        }
         "int" => {
             let fixed = matches!(f.w, 8 | 16 | 32 | 64) && alt % 2 == 0;
             if fixed {
@@ -57,6 +69,7 @@ fn pack_text(f: &F, alt: usize) -> String {
 
 fn parse_text(f: &F) -> String {
     match f.kind.as_str() {
+        "flt" => format!("{} f{}", f.order, f.w),
         "int" => format!("{} {} {}", f.order, f.w, if f.signed { "int" } else { "uint" }),
         "raw" => format!("{} bits", f.w),
         _ => "2 bytes".to_string(),
@@ -90,6 +103,7 @@ pub fn judge(case: &Value, salt: usize) -> Option<Value> {
                         let c = &st[i + 1];
                         let okv = match f.kind.as_str() {
                             "int" => c.to_xint().ok() == Some(ival(f)),
+                            "flt" => c.to_real().ok().map(|r| r.to_bits()) == Some(fval(f).to_bits()),
                             _ => c.bitstr().ok().map(|b| b.bits().collect::<Vec<u8>>() == f.value).unwrap_or(false),
                         };
                         if !okv {
@@ -218,6 +232,13 @@ pub fn cmd_record(args: &[String]) -> i32 {
                 }
                 1 => fields.push(F { kind: "str".into(), w: 16, signed: false, order: "big".into(), value: vec![0,1,0,0,0,0,0,1, 0,1,1,1,1,0,1,0] }),
                 2 => fields.push(F { kind: "bytes".into(), w: 16, signed: false, order: "big".into(), value: vec![0,0,0,0,0,0,0,1, 1,1,1,1,1,1,1,1] }),
+                3 => {
+                    // a dyadic rational with few mantissa bits: exact as binary32 and binary64, exact as a decimal literal
+                    let v = (rng.below(1 << 20) as f64 - (1 << 19) as f64) / 64.0;
+                    let w = if rng.chance(1, 2) { 32 } else { 64 };
+                    let bits: u128 = if w == 32 { (v as f32).to_bits() as u128 } else { v.to_bits() as u128 };
+                    fields.push(F { kind: "flt".into(), w, signed: false, order: if rng.chance(1, 2) { "big".into() } else { "little".into() }, value: pattern(bits, w) });
+                }
                 _ => {
                     let signed = rng.chance(1, 2);
                     let w = 1 + rng.below(if signed { 128 } else { 127 });
@@ -258,6 +279,7 @@ pub fn cmd_record(args: &[String]) -> i32 {
         let packed: Vec<u8> = st[0].bitstr().map(|b| b.bits().collect()).unwrap_or_default();
         let parsed: Vec<Vec<u8>> = fields.iter().enumerate().map(|(i, f)| match f.kind.as_str() {
             "int" => st[i + 1].to_xint().map(|v| pattern(v as u128, f.w)).unwrap_or_default(),
+            "flt" => st[i + 1].to_real().map(|r| if f.w == 32 { pattern((r as f32).to_bits() as u128, 32) } else { pattern(r.to_bits() as u128, 64) }).unwrap_or_default(),
             _ => st[i + 1].bitstr().map(|b| b.bits().collect()).unwrap_or_default(),
         }).collect();
         let remain = st[nf + 1].to_xint().unwrap_or(-1) as i64;
